@@ -21,6 +21,7 @@ structure EnvSpec where
   ax : Float
   ay : Float
   dx : Float
+  dy : Float
   xmin : Float
   xmax : Float
   ymin : Float
@@ -29,7 +30,7 @@ structure EnvSpec where
 def getEnvSpec : P EnvSpec := do
   pure { h0 := ← getF, hx := ← getF, hy := ← getF, w0 := ← getF, wz := ← getF,
          kkind := ← getN, k0 := ← getF, k1 := ← getF, zs := ← getF,
-         a0 := ← getF, ax := ← getF, ay := ← getF, dx := ← getF,
+         a0 := ← getF, ax := ← getF, ay := ← getF, dx := ← getF, dy := ← getF,
          xmin := ← getF, xmax := ← getF, ymin := ← getF, ymax := ← getF }
 
 def EnvSpec.profile (s : EnvSpec) (z : Float) : Float :=
@@ -44,6 +45,7 @@ def EnvSpec.toEnv (s : EnvSpec) : Env Float where
   vdiff _ _ z := s.profile z
   hdiff x y _ := s.a0 + s.ax * x + s.ay * y
   metric _ _ := s.dx
+  metricY _ _ := s.dy
   ingrid x y := (s.xmin - 0.5 < x) && (x < s.xmax + 0.5) && (s.ymin - 0.5 < y) && (y < s.ymax + 0.5)
 
 def getConfig : P (Config Float) := do
